@@ -426,6 +426,53 @@ func runDiff(r *vf.Run, groupMode bool) {
 		if rid := id + "/reused-object"; r.Want(rid) && len(ds.ColNames()) > 0 {
 			reusedObjectLoop(r, rid, r.RNG(rid), ds, matrix, groupMode)
 		}
+		// (round 8) what GetSchema hands out belongs to the caller: every value list of every configuration's schema is
+		// reversed and overwritten in place, then grouped queries are asked again
+		if sid := id + "/schema-scrambled-by-caller"; r.Want(sid) && groupMode && len(qs) > 0 {
+			for _, cfg := range matrix {
+				sc := cfg.idx.GetSchema()
+				if sc == nil {
+					continue
+				}
+				for ci := range sc.Columns {
+					vs := sc.Columns[ci].Values
+					for i, j := 0, len(vs)-1; i < j; i, j = i+1, j-1 {
+						vs[i], vs[j] = vs[j], vs[i]
+					}
+					for i := range vs {
+						if i%2 == 0 {
+							vs[i].Value = "overwritten by the caller"
+						}
+					}
+					sc.Columns[ci].Name = "renamed by the caller"
+				}
+			}
+			n := 0
+			for _, q := range qs {
+				if len(q.gb) == 0 {
+					continue
+				}
+				if n++; n > 12 {
+					break
+				}
+				want := oracle.Eval(ds.Rows, ds.Cols, q.e, q.gb)
+				bad := false
+				for _, cfg := range matrix {
+					r.Eval(1)
+					res, err := ix.Exec(cfg.idx, q.e, q.gb)
+					if diff := oracle.CompareResult(res, err, want, q.gb); diff != "" {
+						r.Violation(sid, "answer", map[string]any{"config": cfg.name, "difference": diff, "expr": q.e.String(), "group_by": fmt.Sprintf("%q", q.gb),
+							"note": "the caller had reversed and overwritten the value lists of the schema it got from GetSchema"})
+						bad = true
+						break
+					}
+				}
+				if bad {
+					break
+				}
+			}
+			r.Count("datasets_queried_after_the_caller_scrambled_its_schema_copy", 1)
+		}
 		// (round 7) the NAME of every index file comes to denote another, much smaller index (renamed over it, as a
 		// nightly rebuild does) while the indexes opened from it stay open: they keep answering for the file they hold
 		if pid := id + "/name-reused-while-open"; r.Want(pid) && len(ds.Rows) >= 20 && len(qs) > 0 {
